@@ -77,14 +77,20 @@ ConcBad(rf0, rf1) ==
         \/ (c[2] < E.r0 /\ ~a0)
         \/ (c[1] > E.r1 /\ ~a1)
 
+\* Concurrent refreshers (family cref): E.results has one result per caller; the candidates a caller
+\* can reach are the live seeds and the registered brokers at the start of the round (read from the
+\* client by the harness: E.live, E.known); the cluster does not change during the round.
 StepClauses(rf1) ==
   LET known == IF degraded THEN {} ELSE {b[2] : b \in ref.brokers}
-      cands == SeedEPs \cup (IF E.k = 0 THEN {} ELSE known)
+      cands == IF fam = "cref" /\ E.k > 0 THEN Range(E.live) \cup Range(E.known)
+               ELSE SeedEPs \cup (IF E.k = 0 THEN {} ELSE known)
       anyUp == cands \ Range(E.down) # {}
       served == Len(E.serves) > 0
+      anyFailed == \E j \in DOMAIN E.results : Failed(E.results[j])
   IN
-  When(anyUp /\ (Failed(E.result) \/ ~served \/ ~E.created), "refresh_succeeds_if_any_answers")
-  \cup When(served /\ ~Failed(E.result) /\ ~ReportedOk(E.resps[E.serves[Len(E.serves)]], E.result), "topic_error_class")
+  When(anyUp /\ (anyFailed \/ ~served \/ ~E.created), "refresh_succeeds_if_any_answers")
+  \cup When(served /\ (\E j \in DOMAIN E.results : ~Failed(E.results[j]) /\ ~ReportedOk(E.resps[E.serves[Len(E.serves)]], E.results[j])),
+           "topic_error_class")
   \cup When(fam = "conc" /\ E.k > 0 /\ (Len(E.serves) # 1 \/ ConcBad(ref, rf1)), "read_is_before_or_after")
 
 Init == /\ l = 1 /\ viol = {} /\ ref = RefInit /\ degraded = FALSE /\ fam = "" /\ ver = ""
@@ -96,7 +102,9 @@ TReset == /\ E.ev = "reset"
           /\ UNCHANGED <<viol, nsteps, nreads, nconc>>
 TStep == /\ E.ev = "step"
          /\ LET rf1 == FoldAll(ref, Resps(E.serves))
-                deg1 == IF Len(E.serves) > 0 THEN FALSE ELSE TRUE
+                \* candidates that failed are set aside; with several refreshers one of them may set a broker
+                \* aside after another one's response has re-registered it
+                deg1 == IF Len(E.serves) > 0 /\ ~(fam = "cref" /\ E.k > 0 /\ Len(E.down) > 0) THEN FALSE ELSE TRUE
                 rd == Reads(E.reads, 1, rf1, deg1, {})
             IN /\ viol' = viol \cup StepClauses(rf1) \cup rd.v
                /\ ref' = rd.ref /\ degraded' = rd.deg
